@@ -95,32 +95,19 @@ VF_NOINLINE static void runOther() {
   dispenso::detail::g_taskStackSize = 0;  // a different thread: its own (empty) task-set stack
   bool escaped = false;
   bool ran = false;
-#ifndef VF_XV
-#define VF_XV 0
-#endif
-#if VF_XV == 0
   try {
-    ran = g_poolp->tryExecuteNext();
+    // = pool.tryExecuteNext() of the contract pool (popMatching + run + workRemaining_), except that
+    // the task holder is not freed: a free under a symbolic guard makes every later holder access
+    // case-split on liveness (measured: 8.1 M variables / 210 s solver instead of 1.3 M / 35 s)
+    dispenso::vfpool::TaskBase* t = g_poolp->popMatching(dispenso::vfpool::kCentral, 0, false);
+    if (t) {
+      t->run();
+      ran = true;
+      g_poolp->workRemaining_.fetch_add(-1, std::memory_order_relaxed);
+    }
   } catch (...) {
     escaped = true;
   }
-#elif VF_XV == 1
-  try {
-    dispenso::vfpool::TaskBase* t = g_poolp->popMatching(0, 0, false);
-    if (t) { t->run(); ran = true; g_poolp->workRemaining_.fetch_add(-1, std::memory_order_relaxed); }
-  } catch (...) {
-    escaped = true;
-  }
-#elif VF_XV == 2
-  try {
-    dispenso::vfpool::TaskBase* t = g_poolp->slot_[1];
-    if (t) { g_poolp->slot_[1] = nullptr; t->run(); delete t; ran = true; g_poolp->workRemaining_.fetch_add(-1, std::memory_order_relaxed); }
-  } catch (...) {
-    escaped = true;
-  }
-#elif VF_XV == 3
-  ran = g_poolp->tryExecuteNext();
-#endif
   vf_check(!escaped, "an exception escaped a packaged task into the pool worker");
   vf_check(dispenso::detail::g_taskStackSize == 0, "a packaged task left the worker's task-set stack unbalanced");
   dispenso::detail::g_taskStackSize = savedStack;
@@ -297,11 +284,7 @@ extern "C" void vf_main() {
   g_throwMask = vf_range_u32(0, 3);
 #if VF_NEST
   g_poolp = &pool;
-#ifdef VF_NMASK
-  g_nestMask = VF_NMASK;
-#else
   g_nestMask = vf_range_u32(0, 3);
-#endif
 #endif
   g_pending = -1;
   g_delivered = 0;
